@@ -817,6 +817,13 @@ func mkQuantFor(op string, bound []*Term, body *Term, ix *Term) *Term {
 }
 
 func mkQuant1(op string, bound []*Term, body *Term) *Term {
+	return mkQuantPats(op, bound, body, nil)
+}
+
+// mkQuantPats: as mkQuant1, carrying an explicit multi-pattern through the
+// normalisation (so that patterns are free of index arithmetic).
+func mkQuantPats(op string, bound []*Term, body *Term, pats []*Term) *Term {
+	pats = append([]*Term(nil), pats...)
 	nb := make([]*Term, len(bound))
 	copy(nb, bound)
 	for i, b := range nb {
@@ -855,7 +862,11 @@ func mkQuant1(op string, bound []*Term, body *Term) *Term {
 		a := Atom(fmt.Sprintf("a!%d", quantCtr), SInt)
 		body = replaceTerm(body, idx.String(), a)
 		body = Subst(body, map[string]*Term{b.Op: Sub(a, base)})
+		for k, pt := range pats {
+			pt = replaceTerm(pt, idx.String(), a)
+			pats[k] = Subst(pt, map[string]*Term{b.Op: Sub(a, base)})
+		}
 		nb[i] = a
 	}
-	return &Term{Op: op, Sort: SBool, Bound: nb, Args: []*Term{body}}
+	return &Term{Op: op, Sort: SBool, Bound: nb, Args: []*Term{body}, Pats: pats}
 }
